@@ -499,3 +499,83 @@ def impl_parse_fo(bs):
         dec = defaults.Connection(NCP=c.NCP, large=large).decoding
         out[k] = (c.connection_ID, c.RPI, (dec.size, dec.variable, dec.priority, dec.type, dec.redundant))
     return out
+
+
+# ---- Connection Manager replies and Forward Close (sem: dict with 'kind') ---------------------------------------------
+def cm_tree(m):
+    k = m['kind']
+    if k == 'fo_ok':
+        return [m['svc'], [[], [[[0, []]], [[m['otid'], m['toid'], m['serial'], m['vendor'], m['oserial'], m['otapi'], m['toapi']], [[], list(m['app'])]]]]]
+    if k == 'fo_fail':
+        tail = [] if m['rps'] is None else [m['rps'], 0]
+        return [m['svc'], [[], [[[m['status'][0], list(m['status'][1])]], [[m['serial'], m['vendor'], m['oserial']], [[], tail]]]]]
+    if k == 'fc_req':
+        return [0x4E, [[[seg_tree(s) for s in m['path']]], [[], [[m['prio'], m['ticks'], m['serial'], m['vendor'], m['oserial']],
+                                                                  [[[seg_tree(s) for s in m['cpath']]], []]]]]]
+    if k == 'fc_ok':
+        return [0xCE, [[], [[[0, []]], [[m['serial'], m['vendor'], m['oserial']], [[], list(m['app'])]]]]]
+    if k == 'fc_min':
+        return [0xCE, [[], [[[m['status'][0], list(m['status'][1])]], [[], [[], []]]]]]
+    raise ValueError(k)
+
+
+def cm_dd(m):
+    from cpppo import dotdict
+    k = m['kind']
+    d = dotdict()
+    if k in ('fo_ok', 'fo_fail'):
+        d.service = m['svc']
+        fo = dotdict(connection_serial=m['serial'], O_vendor=m['vendor'], O_serial=m['oserial'])
+        if k == 'fo_ok':
+            set_status(d, (0, []))
+            fo.O_T = dotdict(connection_ID=m['otid'], API=m['otapi']); fo.T_O = dotdict(connection_ID=m['toid'], API=m['toapi'])
+            fo.application = dotdict(data=list(m['app']))
+        else:
+            set_status(d, m['status'])
+            if m['rps'] is not None:
+                fo.remaining_path_size = m['rps']
+        d.forward_open = fo
+    elif k == 'fc_req':
+        d.path = path_dd(m['path'])
+        d.forward_close = dotdict(priority_time_tick=m['prio'], timeout_ticks=m['ticks'], connection_serial=m['serial'], O_vendor=m['vendor'],
+                                  O_serial=m['oserial'], connection_path=path_dd(m['cpath']))
+    elif k == 'fc_ok':
+        d.service = 0xCE; set_status(d, (0, []))
+        d.forward_close = dotdict(connection_serial=m['serial'], O_vendor=m['vendor'], O_serial=m['oserial'], application=dotdict(data=list(m['app'])))
+    else:
+        d.service = 0xCE; set_status(d, m['status'])
+    return d
+
+
+def impl_produce_cm(m):
+    from cpppo.server.enip import device
+    return bytes(device.Connection_Manager.produce(cm_dd(m)))
+
+
+def impl_parse_cm(bs):
+    """-> sem of a parsed Connection Manager reply / Forward Close request"""
+    from cpppo.server.enip import logix, device
+    device.lookup_reset(); logix.setup_reset(); logix.setup()
+    cm = device.lookup(6, 1)
+    d, term, src = run_machine(cm.parser, bs)
+    if src.peek() is not None or not term:
+        raise ValueError('unconsumed input')
+    svc = d.service
+    st = (d.get('status', 0), list(d.status_ext.data) if 'status_ext' in d and d.status_ext.get('data') is not None else [])
+    if svc in (0xD4, 0xDB):
+        fo = d.forward_open
+        if st[0] == 0:
+            return dict(kind='fo_ok', svc=svc, otid=fo.O_T.connection_ID, toid=fo.T_O.connection_ID, serial=fo.connection_serial, vendor=fo.O_vendor,
+                        oserial=fo.O_serial, otapi=fo.O_T.API, toapi=fo.T_O.API, app=bytes(bytearray(fo.application.data)))
+        return dict(kind='fo_fail', svc=svc, status=st, serial=fo.connection_serial, vendor=fo.O_vendor, oserial=fo.O_serial,
+                    rps=fo.get('remaining_path_size'))
+    if svc == 0x4E:
+        fc = d.forward_close
+        return dict(kind='fc_req', path=[dd_seg(x) for x in d.path.segment], prio=fc.priority_time_tick, ticks=fc.timeout_ticks,
+                    serial=fc.connection_serial, vendor=fc.O_vendor, oserial=fc.O_serial, cpath=[dd_seg(x) for x in fc.connection_path.segment])
+    if svc == 0xCE:
+        fc = d.get('forward_close')
+        if isinstance(fc, dict) and 'connection_serial' in fc:
+            return dict(kind='fc_ok', serial=fc.connection_serial, vendor=fc.O_vendor, oserial=fc.O_serial, app=bytes(bytearray(fc.application.data)))
+        return dict(kind='fc_min', status=st)
+    raise ValueError('service 0x%02x' % svc)
